@@ -215,4 +215,517 @@ theorem gw_answered (env : Env) (s : State) (r : Request) (a : Model.Forward.Ans
   exact ⟨by rw [← KG.Props.C04.c04_decision_table]; exact hs, KG.Props.C04.c04_terminated_wellformed _ _ hs,
     (KG.Props.C04.c04_terminated_judges _ _ hs).1⟩
 
+theorem kindOf_terminated {o : Outcome} {a : Model.Forward.Answer} (h : kindOf o = some (.terminated a)) : o = .terminated a := by
+  cases o <;> simp [kindOf] at h
+  subst h; rfl
+
+/-- **never a panic**: from every state whose limiters are well-formed (in particular every state reachable from
+    `install`, `gw_install_inv`), no request makes the gateway panic and the model never leaves its own branches -/
+theorem gw_never_panics (env : Env) (s : State) (r : Request) (hinv : Inv s) (e : String) : (arrive env s r).2 ≠ .panic e := by
+  intro h
+  by_cases hp : Model.Identity.parse r.lines = none
+  · rw [arrive_badRequest (Or.inl hp)] at h; cases h
+  · by_cases hf : Model.Forward.forwardRequest r.toForward = none
+    · rw [arrive_badRequest (Or.inr hf)] at h; cases h
+    · have := gw_decision_table env s r hinv hp hf
+      rw [h] at this; simp [kindOf] at this
+
+/-- the invariant holds after `install` and is kept by every operation of a sequence -/
+theorem gw_install_inv (cfgs : List ClusterCfg) : Inv (install cfgs) := inv_install cfgs
+
+theorem gw_run_inv (env : Env) (x : Run) (h : Inv x.s) (ops : List Op) : Inv (run env x ops).1.s := inv_run x h ops
+
+/-- … so along EVERY sequence of requests (held or not), completions and health reports on ANY installed configuration no
+    operation panics -/
+theorem gw_run_never_panics (env : Env) (cfgs : List ClusterCfg) (ops : List Op) (e : String) :
+    Out.served (.panic e) ∉ (run env (Run.init (install cfgs)) ops).2 := by
+  suffices h : ∀ (x : Run), Inv x.s → Out.served (.panic e) ∉ (run env x ops).2 from h _ (inv_install cfgs)
+  induction ops with
+  | nil => intro x _; simp [run]
+  | cons op ops ih =>
+    intro x hx
+    simp only [run, List.mem_cons, not_or]
+    refine ⟨?_, ih _ (inv_step hx op)⟩
+    cases op with
+    | request r hold =>
+      simp only [step]
+      by_cases hh : hold = true
+      · simp only [hh, if_true]
+        intro heq
+        have : (arrive env x.s r).2 = .panic e := by
+          split at heq <;> (injection heq with heq; exact heq.symm)
+        exact gw_never_panics env x.s r hx e this
+      · simp only [hh, Bool.false_eq_true, if_false]
+        intro heq
+        injection heq with heq
+        have : (arrive env x.s r).2 = .panic e := by
+          unfold serveRequest at heq
+          dsimp only at heq
+          split at heq
+          · rename_i f hf; rw [hf] at heq; cases heq
+          · exact heq.symm
+        exact gw_never_panics env x.s r hx e this
+    | finish k => simp only [step]; split <;> simp
+    | setHealth p ep healthy => simp [step]
+
+/-! ### the rows, by the first stage that fails (each with what it leaves of the state) -/
+
+/-- the host resolves to no cluster: 503 with Retry-After; nothing else is consulted, nothing changes -/
+theorem gw_row_unknown_host (env : Env) (s : State) (r : Request) (hinv : Inv s)
+    (hp : Model.Identity.parse r.lines ≠ none) (hf : Model.Forward.forwardRequest r.toForward ≠ none)
+    (hi : r.info ≠ none) (hip : r.hostIsIP = false) (hres : resolveCluster s r = none) :
+    ∃ a, (arrive env s r).2 = .terminated a ∧ a.httpCode = 503 ∧ a.retryAfter = some Gen.C04.unavailableRetryAfter ∧
+      (arrive env s r).1 = s := by
+  have ht := gw_decision_table env s r hinv hp hf
+  have hinfo : r.info.isSome = true := by cases hh : r.info with | none => exact absurd hh hi | some _ => rfl
+  have : KG.Spec.Forward.table (scenario env s r) =
+      .terminated ⟨503, some Gen.C04.unavailableRetryAfter, ⟨Model.Forward.kStatus, Model.Forward.kV1, Model.Forward.kFailure, Model.Forward.kServiceUnavailable, 503⟩⟩ := by
+    simp [KG.Spec.Forward.table, scenario_info, scenario_ip, scenario_known, hinfo, hip, hres]
+  rw [this] at ht
+  refine ⟨_, kindOf_terminated ht, rfl, rfl, arrive_state_of_not_done ?_⟩
+  intro x hx
+  obtain ⟨hb, _⟩ := dispatch_done hx
+  obtain ⟨_, _, hres', _⟩ := bound_some hb
+  rw [hres] at hres'; cases hres'
+
+/-- the cluster's DenyAllRequests gate: 429 without Retry-After, before any authentication; nothing changes -/
+theorem gw_row_deny_all (env : Env) (s : State) (r : Request) (hinv : Inv s)
+    (hp : Model.Identity.parse r.lines ≠ none) (hf : Model.Forward.forwardRequest r.toForward ≠ none)
+    (hi : r.info ≠ none) (hip : r.hostIsIP = false) (p : Nat) (cl : Cluster) (hres : resolveCluster s r = some (p, cl))
+    (hd : cl.cfg.denyAll = true) :
+    ∃ a, (arrive env s r).2 = .terminated a ∧ a.httpCode = 429 ∧ a.retryAfter = none ∧ (arrive env s r).1 = s := by
+  have ht := gw_decision_table env s r hinv hp hf
+  have hinfo : r.info.isSome = true := by cases hh : r.info with | none => exact absurd hh hi | some _ => rfl
+  have : KG.Spec.Forward.table (scenario env s r) =
+      .terminated ⟨429, none, ⟨Model.Forward.kStatus, Model.Forward.kV1, Model.Forward.kFailure, Model.Forward.kTooManyRequests, 429⟩⟩ := by
+    have h4 : (scenario env s r).denyAll = true := by simp [scenario, hres, hd]
+    simp [KG.Spec.Forward.table, scenario_info, scenario_ip, scenario_known, hinfo, hip, hres, h4]
+  rw [this] at ht
+  refine ⟨_, kindOf_terminated ht, rfl, rfl, arrive_state_of_not_done ?_⟩
+  intro x hx
+  obtain ⟨hb, _⟩ := dispatch_done hx
+  obtain ⟨_, _, hres', hd', _⟩ := bound_some hb
+  rw [hres] at hres'; cases hres'
+  rw [hd] at hd'; cases hd'
+
+/-- no policy of the bound cluster has a rule matching the request (C01: `policySpec` false for all): 500, and NO limiter is
+    touched — flow control is only ever acquired for a matched policy -/
+theorem gw_row_no_policy (env : Env) (s : State) (r : Request) (hinv : Inv s)
+    (hp : Model.Identity.parse r.lines ≠ none) (hf : Model.Forward.forwardRequest r.toForward ≠ none)
+    (b : Bound) (hb : bound? env s r = some b)
+    (hno : ∀ pol ∈ b.cl.cfg.policies, KG.Spec.Match.policySpec (attrsOf b.ri b.ctxUser) pol.rules = false) :
+    ∃ a, (arrive env s r).2 = .terminated a ∧ a.httpCode = 500 ∧ a.body.reason = Model.Forward.kInternalError ∧
+      (arrive env s r).1 = s := by
+  have hroute : route b.cl r b.ri b.ctxUser = none := (KG.Props.C01.c01_match_attributes_none _ _ _ _).2 hno
+  have hd : dispatch env s r = .noPolicy b := by unfold dispatch; simp [hb, hroute]
+  have ht := gw_decision_table env s r hinv hp hf
+  obtain ⟨h1, h2, h3, h4, h5, h6⟩ := scenario_of_bound hb
+  have h7 : (scenario env s r).policyMatches = false := by rw [scenario_policy, hd]
+  have : KG.Spec.Forward.table (scenario env s r) =
+      .terminated ⟨500, none, ⟨Model.Forward.kStatus, Model.Forward.kV1, Model.Forward.kFailure, Model.Forward.kInternalError, 500⟩⟩ := by
+    rcases h6 with h6 | h6 <;> simp [KG.Spec.Forward.table, KG.Spec.Forward.tableDispatch, h1, h2, h3, h4, h5, h6, h7]
+  rw [this] at ht
+  refine ⟨_, kindOf_terminated ht, rfl, rfl, arrive_state_of_not_done ?_⟩
+  intro x hx; rw [hd] at hx; cases hx
+
+/-- the schema of the first matching policy refuses: 429 — with Retry-After unless the resource is `events` — and NO
+    round-robin cursor moves (`TryAcquire` comes before `Pop`); endpoints, names and configuration are untouched -/
+theorem gw_row_rate_limited (env : Env) (s : State) (r : Request) (hinv : Inv s)
+    (hp : Model.Identity.parse r.lines ≠ none) (hf : Model.Forward.forwardRequest r.toForward ≠ none)
+    (x : Dispatched) (hx : dispatch env s r = .done x) (ha : x.acq.admitted = false) :
+    ∃ a, (arrive env s r).2 = .terminated a ∧ a.httpCode = 429 ∧
+      a.retryAfter = (if (scenario env s r).resource = Gen.C04.rateLimitExemptResource then none else some Gen.C04.retryAfter) ∧
+      (arrive env s r).1.clusters = s.clusters ∧ (arrive env s r).1.mgr = s.mgr ∧ (arrive env s r).1.lim = x.acq.lim := by
+  obtain ⟨hb, _⟩ := dispatch_done hx
+  have ht := gw_decision_table env s r hinv hp hf
+  obtain ⟨h1, h2, h3, h4, h5, h6⟩ := scenario_of_bound hb
+  have h7 : (scenario env s r).policyMatches = true := by rw [scenario_policy, hx]
+  have h8 : (scenario env s r).acquireOK = false := by rw [scenario_acquire, hx]; exact ha
+  have : KG.Spec.Forward.table (scenario env s r) =
+      .terminated ⟨429, if (scenario env s r).resource = Gen.C04.rateLimitExemptResource then none else some Gen.C04.retryAfter,
+        ⟨Model.Forward.kStatus, Model.Forward.kV1, Model.Forward.kFailure, Model.Forward.kTooManyRequests, 429⟩⟩ := by
+    rcases h6 with h6 | h6 <;> simp [KG.Spec.Forward.table, KG.Spec.Forward.tableDispatch, h1, h2, h3, h4, h5, h6, h7, h8]
+  rw [this] at ht
+  have hterm := kindOf_terminated ht
+  obtain ⟨_, hst⟩ := arrive_terminated hterm
+  rw [hx] at hst
+  simp only [ha, Bool.false_eq_true, if_false] at hst
+  refine ⟨_, hterm, rfl, rfl, ?_, ?_, ?_⟩
+  · rw [hst]; exact stateAfterDispatch_refused hx ha
+  · rw [hst]; rfl
+  · rw [hst]; rfl
+
+/-- admitted, but the policy's upstream list holds no enabled, healthy endpoint (C03): 503 with Retry-After; the slot is
+    given back by the deferred `Release` and no cursor moves -/
+theorem gw_row_no_ready (env : Env) (s : State) (r : Request) (hinv : Inv s)
+    (hp : Model.Identity.parse r.lines ≠ none) (hf : Model.Forward.forwardRequest r.toForward ≠ none)
+    (x : Dispatched) (hx : dispatch env s r = .done x) (ha : x.acq.admitted = true) (hn : x.pop.1 = .noReady) :
+    ∃ a, (arrive env s r).2 = .terminated a ∧ a.httpCode = 503 ∧ a.retryAfter = some Gen.C04.unavailableRetryAfter ∧
+      (∀ n, n ∈ x.pk.upstreams → ∀ e, Model.Endpoints.load x.b.cl.ep.eps n = some e → e.isReady = false) ∧
+      (arrive env s r).1.clusters = s.clusters ∧
+      (arrive env s r).1.lim = (Model.LocalLimiter.release x.acq.lim x.acq.handle).1 := by
+  obtain ⟨hb, _, _, hpop⟩ := dispatch_done hx
+  simp only [ha, if_true] at hpop
+  have ht := gw_decision_table env s r hinv hp hf
+  obtain ⟨h1, h2, h3, h4, h5, h6⟩ := scenario_of_bound hb
+  have h7 : (scenario env s r).policyMatches = true := by rw [scenario_policy, hx]
+  have h8 : (scenario env s r).acquireOK = true := by rw [scenario_acquire, hx]; exact ha
+  have h9 : (scenario env s r).popOK = false := by rw [scenario_pop, hx]; simp [hn]
+  have : KG.Spec.Forward.table (scenario env s r) =
+      .terminated ⟨503, some Gen.C04.unavailableRetryAfter,
+        ⟨Model.Forward.kStatus, Model.Forward.kV1, Model.Forward.kFailure, Model.Forward.kServiceUnavailable, 503⟩⟩ := by
+    rcases h6 with h6 | h6 <;> simp [KG.Spec.Forward.table, KG.Spec.Forward.tableDispatch, h1, h2, h3, h4, h5, h6, h7, h8, h9]
+  rw [this] at ht
+  have hterm := kindOf_terminated ht
+  obtain ⟨_, hst⟩ := arrive_terminated hterm
+  rw [hx] at hst
+  simp only [ha, if_true] at hst
+  have hno : (Model.Endpoints.pop x.b.cl.ep.eps x.b.cl.ep.lb x.pk.upstreams).1 = .noReady := by rw [← hpop]; exact hn
+  have hlb : x.pop.2 = x.b.cl.ep.lb := by
+    rw [hpop]
+    rcases KG.Lemmas.Endpoints.pop_cases x.b.cl.ep.eps x.b.cl.ep.lb x.pk.upstreams with ⟨_, h'⟩ | ⟨e, _, h'⟩
+    · rw [KG.Lemmas.Endpoints.pop_none _ _ _ h']
+    · rw [h'] at hno; cases hno
+  obtain ⟨_, _, hres, _⟩ := bound_some hb
+  obtain ⟨_, hcl⟩ := resolve_some hres
+  refine ⟨_, hterm, rfl, rfl, KG.Lemmas.Endpoints.pop_noReady hno, ?_, ?_⟩
+  · rw [hst, finish_clusters, stateAfterDispatch_clusters, hlb]
+    exact setCursor_self _ _ _ hcl
+  · rw [hst]; rfl
+
+/-! ## frame facts: what one request leaves alone -/
+
+/-- C10 / C11 / C03: a request never changes the manager (names), any cluster's configuration, endpoint objects, their
+    health or the Sync counter — whatever its outcome; only cursors, limiters and buckets can move -/
+theorem gw_frame_static (env : Env) (s : State) (r : Request) :
+    (arrive env s r).1.mgr = s.mgr ∧
+    (arrive env s r).1.clusters.map (fun cl => (cl.cfg, cl.ep.eps, cl.ep.epoch, cl.ep.policies, cl.ep.pickers)) =
+      s.clusters.map (fun cl => (cl.cfg, cl.ep.eps, cl.ep.epoch, cl.ep.policies, cl.ep.pickers)) := by
+  have hg : ∀ (x : Dispatched), (stateAfterDispatch s x).clusters.map (fun cl => (cl.cfg, cl.ep.eps, cl.ep.epoch, cl.ep.policies, cl.ep.pickers)) =
+      s.clusters.map (fun cl => (cl.cfg, cl.ep.eps, cl.ep.epoch, cl.ep.policies, cl.ep.pickers)) := by
+    intro x
+    rw [stateAfterDispatch_clusters]
+    exact setCursor_map _ (fun _ _ => rfl) _ _ _
+  rcases arrive_state env s r with h | ⟨x, _, h | h⟩
+  · rw [h]; exact ⟨rfl, rfl⟩
+  · rw [h]; exact ⟨rfl, hg x⟩
+  · rw [h]; exact ⟨rfl, hg x⟩
+
+/-- C14: only the cursors of the cluster the request was bound to can move, and only when flow control admitted it
+    ("a 429 does not consume a round-robin turn") -/
+theorem gw_frame_cursors (env : Env) (s : State) (r : Request) :
+    (arrive env s r).1.clusters = s.clusters ∨
+    ∃ x, dispatch env s r = .done x ∧ x.acq.admitted = true ∧
+      (∀ q, q ≠ x.b.p → (arrive env s r).1.clusters[q]? = s.clusters[q]?) ∧
+      (arrive env s r).1.clusters[x.b.p]? = some { x.b.cl with ep := { x.b.cl.ep with lb := x.pop.2 } } := by
+  rcases arrive_state env s r with h | ⟨x, hx, h⟩
+  · left; rw [h]
+  · by_cases ha : x.acq.admitted = true
+    · right
+      have hc : (arrive env s r).1.clusters = setCursor s.clusters x.b.p x.pop.2 := by
+        rcases h with h | h <;> rw [h] <;> rfl
+      obtain ⟨hb, _⟩ := dispatch_done hx
+      obtain ⟨_, _, hres, _⟩ := bound_some hb
+      obtain ⟨_, hcl⟩ := resolve_some hres
+      refine ⟨x, hx, ha, ?_, ?_⟩
+      · intro q hq; rw [hc, setCursor_get]; simp [hq]
+      · rw [hc, setCursor_get]; simp [hcl]
+    · left
+      have ha' : x.acq.admitted = false := by simpa using ha
+      rcases h with h | h <;> rw [h]
+      · exact stateAfterDispatch_refused hx ha'
+      · rw [finish_clusters]; exact stateAfterDispatch_refused hx ha'
+
+/-- C05 / C06: a request that does not reach `TryAcquire` — any filter in front of the dispatcher answered, the host is an
+    IP literal, or no policy matches — leaves every limiter, every bucket and every cursor alone -/
+theorem gw_frame_unreached (env : Env) (s : State) (r : Request) (h : ∀ x, dispatch env s r ≠ .done x) :
+    (arrive env s r).1 = s := arrive_state_of_not_done h
+
+/-! ## C10 through the composition -/
+
+/-- when the manager is reachable by handler invocations (C10: `Reachable`, e.g. after `install`), the host of a forwarded
+    request — port stripped, lower-cased — is one of the CURRENT server names of the cluster it was forwarded for: no
+    request is ever served by a cluster that does not claim its host -/
+theorem gw_forwarded_host_is_claimed (env : Env) (s : State) (r : Request) (f : Forwarded)
+    (h : (arrive env s r).2 = .forwarded f) (hm : KG.Props.C10.Reachable lower s.mgr) :
+    ∃ ci, Model.Names.resolve lower s.mgr r.host = some (f.cluster, ci) ∧
+      lower (Model.Names.hostWithoutPort lower r.host) ∈ Model.Names.loadServerNames lower ci := by
+  obtain ⟨ci, _, _, _, _, _, _, _, hres, _⟩ := gw_forwarded env s r f h
+  refine ⟨ci, hres, ?_⟩
+  have hI := KG.Props.C10.c10_inv lower KG.Props.C10.c10_lower_idem s.mgr hm
+  unfold Model.Names.resolve at hres
+  obtain ⟨hlook, hheap⟩ := (KG.Lemmas.Names.get_some_iff lower s.mgr _ _ _).1 hres
+  exact hI.mem _ _ _ hlook hheap
+
+/-- `install` only ever applies C10's handler -/
+theorem gw_install_mgr_reachable (cfgs : List ClusterCfg) : KG.Props.C10.Reachable lower (install cfgs).mgr := by
+  unfold install
+  suffices h : ∀ s : State, KG.Props.C10.Reachable lower s.mgr →
+      KG.Props.C10.Reachable lower (cfgs.foldl (fun s c => (addCluster s c).1) s).mgr from h _ KG.Props.C10.Reachable.init
+  induction cfgs with
+  | nil => intro s hs; exact hs
+  | cons c rest ih =>
+    intro s hs
+    apply ih
+    unfold addCluster
+    dsimp only
+    cases hsync : Model.LocalLimiter.sync s.lim (lower c.name) c.schemas with
+    | error e => split <;> exact hs
+    | ok w =>
+      split
+      · exact KG.Props.C10.Reachable.step _ _ _ hs
+      · exact hs
+      · exact hs
+
+/-! ## well-formed clusters: established by `install`, kept by every operation -/
+
+def StateWF (s : State) : Prop := ∀ cl ∈ s.clusters, ClusterWF cl
+
+theorem sim_congr {s1 s2 : Model.Endpoints.State} {a : KG.Spec.Endpoints.Abs} (h : KG.Lemmas.Endpoints.Sim s1 a)
+    (h1 : s2.eps = s1.eps) (h2 : s2.epoch = s1.epoch) (h3 : s2.policies = s1.policies) (h4 : s2.pickers = s1.pickers) :
+    KG.Lemmas.Endpoints.Sim s2 a :=
+  ⟨by rw [h3]; exact h.policies, by rw [h4]; exact h.pickers, by rw [h2]; exact h.epoch, by rw [h1]; exact h.nodup,
+   by rw [h1]; exact h.dom, by rw [h1]; exact h.ep, h.rep⟩
+
+theorem wf_init : StateWF State.init := by intro cl hcl; cases hcl
+
+theorem wf_addCluster {s : State} (h : StateWF s) (cfg : ClusterCfg) : StateWF (addCluster s cfg).1 := by
+  unfold addCluster
+  dsimp only
+  cases hsync : Model.LocalLimiter.sync s.lim (lower cfg.name) cfg.schemas with
+  | error e => split <;> exact h
+  | ok w =>
+    split
+    · intro cl hcl
+      simp only [List.mem_append, List.mem_singleton] at hcl
+      rcases hcl with hcl | hcl
+      · exact h cl hcl
+      · subst hcl
+        have hs := (KG.Lemmas.Endpoints.sim_step KG.Lemmas.Endpoints.sim_init
+          (.sync cfg.servers (cfg.policies.map (·.upstreamSubset)))).2
+        exact ⟨_, hs, rfl, rfl⟩
+    · exact h
+    · exact h
+
+theorem wf_install (cfgs : List ClusterCfg) : StateWF (install cfgs) := by
+  unfold install
+  suffices h : ∀ s, StateWF s → StateWF (cfgs.foldl (fun s c => (addCluster s c).1) s) from h _ wf_init
+  induction cfgs with
+  | nil => intro s hs; exact hs
+  | cons c rest ih => intro s hs; exact ih _ (wf_addCluster hs c)
+
+theorem wf_of_static {s s' : State} (h : StateWF s)
+    (he : s'.clusters.map (fun cl => (cl.cfg, cl.ep.eps, cl.ep.epoch, cl.ep.policies, cl.ep.pickers)) =
+      s.clusters.map (fun cl => (cl.cfg, cl.ep.eps, cl.ep.epoch, cl.ep.policies, cl.ep.pickers))) : StateWF s' := by
+  intro cl' hcl'
+  obtain ⟨i, hi, hget⟩ := List.mem_iff_getElem.mp hcl'
+  have h1 : (s'.clusters.map (fun cl => (cl.cfg, cl.ep.eps, cl.ep.epoch, cl.ep.policies, cl.ep.pickers)))[i]? =
+      some (cl'.cfg, cl'.ep.eps, cl'.ep.epoch, cl'.ep.policies, cl'.ep.pickers) := by
+    rw [List.getElem?_map, List.getElem?_eq_getElem hi, hget]; rfl
+  rw [he, List.getElem?_map] at h1
+  cases hc : s.clusters[i]? with
+  | none => rw [hc] at h1; cases h1
+  | some cl =>
+    rw [hc] at h1
+    simp only [Option.map_some, Option.some.injEq, Prod.mk.injEq] at h1
+    obtain ⟨e1, e2, e3, e4, e5⟩ := h1
+    obtain ⟨a, hsim, hsrv, hpol⟩ := h cl (List.mem_of_getElem? hc)
+    exact ⟨a, sim_congr hsim e2.symm e3.symm e4.symm e5.symm, by rw [← e1]; exact hsrv, by rw [← e1]; exact hpol⟩
+
+theorem wf_arrive {env : Env} {s : State} (h : StateWF s) (r : Request) : StateWF (arrive env s r).1 :=
+  wf_of_static h (gw_frame_static env s r).2
+
+theorem wf_finish {s : State} (h : StateWF s) (i : Nat) : StateWF (finish s i) := h
+
+theorem wf_setHealth {s : State} (h : StateWF s) (p : Nat) (ep : Str) (healthy : Bool) : StateWF (setHealth s p ep healthy) := by
+  unfold setHealth
+  cases hc : s.clusters[p]? with
+  | none => exact h
+  | some cl =>
+    intro cl' hcl'
+    simp only at hcl'
+    rcases List.mem_or_eq_of_mem_set hcl' with hm | hm
+    · exact h cl' hm
+    · subst hm
+      obtain ⟨a, hsim, hsrv, hpol⟩ := h cl (List.mem_of_getElem? hc)
+      have hs := (KG.Lemmas.Endpoints.sim_step hsim (.updateStatus ep healthy)).2
+      refine ⟨_, hs, ?_, ?_⟩
+      · simp only [KG.Spec.Endpoints.absStep]; split <;> exact hsrv
+      · simp only [KG.Spec.Endpoints.absStep]; split <;> exact hpol
+
+/-- along every sequence on every installed configuration the clusters stay well-formed: the hypotheses of
+    `gw_forwarded_server` are satisfied by every state the harness drives the model through -/
+theorem gw_run_wf (env : Env) (cfgs : List ClusterCfg) (ops : List Op) :
+    StateWF (run env (Run.init (install cfgs)) ops).1.s := by
+  suffices h : ∀ (x : Run), StateWF x.s → StateWF (run env x ops).1.s from h _ (wf_install cfgs)
+  induction ops with
+  | nil => intro x hx; exact hx
+  | cons op ops ih =>
+    intro x hx
+    apply ih
+    cases op with
+    | request r hold =>
+      simp only [step]
+      by_cases hh : hold = true
+      · simp only [hh, if_true]
+        split <;> exact wf_arrive hx r
+      · simp only [hh, Bool.false_eq_true, if_false]
+        unfold serveRequest
+        dsimp only
+        split
+        · exact wf_finish (wf_arrive hx r) _
+        · exact wf_arrive hx r
+    | finish k => simp only [step]; split <;> first | exact hx | exact wf_finish hx _
+    | setHealth p ep healthy => exact wf_setHealth hx p ep healthy
+
+/-! ## C12 through the composition: decisions never cross clusters -/
+
+theorem authenticate_congr {env env' : Env} {p : Option Nat} (h : ∀ tok, env.authn p tok = env'.authn p tok) (r : Request) :
+    authenticate env p r = authenticate env' p r := by
+  unfold authenticate; split <;> simp [h]
+
+theorem impersonation_congr {env env' : Env} {p : Option Nat} (h : ∀ u q, env.authz p u q = env'.authz p u q) (r : Request)
+    (u : Model.Identity.Identity) : impersonation env p r u = impersonation env' p r u := by
+  unfold impersonation
+  have : env.authz p u = env'.authz p u := funext (h u)
+  rw [this]
+
+/-- the cluster a request is bound to (none: IP-literal Host or unknown host) -/
+def boundPtr (s : State) (r : Request) : Option Nat := if r.hostIsIP then none else (resolveCluster s r).map (·.1)
+
+theorem bound_congr {env env' : Env} {s : State} {r : Request}
+    (h1 : ∀ tok, env.authn (boundPtr s r) tok = env'.authn (boundPtr s r) tok)
+    (h2 : ∀ u q, env.authz (boundPtr s r) u q = env'.authz (boundPtr s r) u q) : bound? env s r = bound? env' s r := by
+  unfold bound?
+  cases r.info with
+  | none => rfl
+  | some ri =>
+    simp only
+    cases hip : r.hostIsIP with
+    | true => simp
+    | false =>
+      simp only [Bool.false_eq_true, if_false]
+      cases hres : resolveCluster s r with
+      | none => rfl
+      | some pc =>
+        obtain ⟨p, cl⟩ := pc
+        have hp : boundPtr s r = some p := by simp [boundPtr, hip, hres]
+        rw [hp] at h1 h2
+        simp only
+        rw [authenticate_congr h1 r]
+        cases cl.cfg.denyAll <;> simp only [Bool.false_eq_true, if_false, if_true]
+        cases authenticate env' (some p) r with
+        | none => rfl
+        | some u => simp only; rw [impersonation_congr h2 r u]
+
+/-- **C12 lifted**: the outcome of a request, the request an upstream receives and the state afterwards depend on the oracles
+    (authentication and impersonation authorisation) of the ONE cluster the request is bound to and of no other: two
+    environments that agree on that cluster's oracles are indistinguishable, whatever the other clusters' oracles say about
+    the same token or the same user. -/
+theorem gw_own_cluster_oracle (env env' : Env) (s : State) (r : Request)
+    (h1 : ∀ tok, env.authn (boundPtr s r) tok = env'.authn (boundPtr s r) tok)
+    (h2 : ∀ u q, env.authz (boundPtr s r) u q = env'.authz (boundPtr s r) u q) :
+    arrive env s r = arrive env' s r := by
+  have hb := bound_congr h1 h2
+  have hd : dispatch env s r = dispatch env' s r := by unfold dispatch; rw [hb]
+  have hs : scenario env s r = scenario env' s r := by
+    have e1 : authenticate env (boundPtr s r) r = authenticate env' (boundPtr s r) r := authenticate_congr h1 r
+    unfold scenario
+    simp only [hd]
+    unfold boundPtr at e1
+    rw [e1]
+    cases authenticate env' (if r.hostIsIP = true then none else Option.map (fun x => x.fst) (resolveCluster s r)) r with
+    | none => rfl
+    | some u =>
+      have := impersonation_congr h2 r u
+      unfold boundPtr at this
+      simp only [this]
+  unfold arrive
+  rw [hd, hs]
+  cases hd' : dispatch env' s r with
+  | done x =>
+    have hx : dispatch env s r = .done x := by rw [hd, hd']
+    obtain ⟨hbx, _⟩ := dispatch_done hx
+    obtain ⟨_, hip, hres, _⟩ := bound_some hbx
+    have hp : boundPtr s r = some x.b.p := by simp [boundPtr, hip, hres]
+    have : env.authz (some x.b.p) x.b.requestor = env'.authz (some x.b.p) x.b.requestor := by
+      funext q; rw [← hp]; exact h2 _ q
+    simp only [this]
+  | notReached => rfl
+  | noPolicy b => rfl
+  | panic e => rfl
+
+/-! ## non-vacuity: a concrete configuration and sequence on which every hypothesis above is met non-trivially
+
+Two clusters `a` (alias `x`; endpoints `e`, `f`; schema `m` = max-in-flight 1; policy 0 only for user `v` with subset `[f]`,
+policy 1 catch-all with subset `[e, f]`, both under `m`) and `b` (alias `a`: REFUSED by C10's conflict rule, never served).
+Token `t` is user `u` at cluster `a`. The sequence: both endpoints report healthy; a request is forwarded and HELD
+(first matching policy is 1, round robin starts at `f`); the same request again is refused 429 (the slot is taken) and
+does not move the cursor; the held one finishes; the next one is forwarded to `e`; an unknown token is 401; host `b`
+(refused cluster) is 503; `e` turns unhealthy and `f` is picked; cluster `a` is reached under its alias `X:443`. -/
+section NonVacuous
+
+def star : List Str := [Model.Match.star]
+def anyRule (users : List Str) : Model.Match.Rule :=
+  { verbs := star, apiGroups := star, resources := star, resourceNames := [], users := users, serviceAccounts := [],
+    userGroups := [], nonResourceURLs := star }
+
+def exCfgA : ClusterCfg :=
+  { name := [97], aliases := [[120]], denyAll := false, closeWhenIdle := false, loggingMode := [],
+    policies := [{ rules := [anyRule [[118]]], flowControlSchemaName := [109], upstreamSubset := [[102]], logMode := [] },
+                 { rules := [anyRule []], flowControlSchemaName := [109], upstreamSubset := [[101], [102]], logMode := [] }],
+    schemas := [{ name := [109], strategy := [], exempt := false, mi := some 1, tb := none, gmi := none, gtb := none }],
+    servers := [{ endpoint := [101], disabled := false }, { endpoint := [102], disabled := false }],
+    token := [103, 119] }
+
+def exCfgB : ClusterCfg := { exCfgA with name := [98], aliases := [[97]] }
+
+def exEnv : Env :=
+  { authn := fun p tok => if p = some 0 ∧ tok = [116] then some ⟨[117], [[103]], []⟩ else none,
+    authz := fun _ _ _ => .allow }
+
+def exReq (host : Str) (tok : Str) : Request :=
+  { host := host, method := [71, 69, 84], target := [47, 120],
+    lines := [(Model.Identity.hAuthorization, Model.Identity.bearerPrefix ++ tok)], body := [], remoteIP := some [49],
+    info := some { verb := [103, 101, 116], isResource := false, apiGroup := [], resource := [], subresource := [], name := [], path := [47, 120] },
+    hostIsIP := false, order := [], now := 0 }
+
+def exOps : List Op :=
+  [.setHealth 0 [101] true, .setHealth 0 [102] true,
+   .request (exReq [97] [116]) true,            -- forwarded to f, held
+   .request (exReq [97] [116]) false,           -- 429: the only slot is taken
+   .finish 2,
+   .request (exReq [97] [116]) false,           -- forwarded to e
+   .request (exReq [97] [122]) false,           -- 401: unknown token
+   .request (exReq [98] [116]) false,           -- 503: cluster b was refused
+   .setHealth 0 [101] false,
+   .request (exReq [97] [116]) false,           -- only f is ready
+   .request (exReq [88, 58, 52, 52, 51] [116]) false]  -- "X:443": alias, other case, port
+
+/-- (status, endpoint, policy) of an output; 200 = forwarded -/
+def digest : Out → Nat × Str × Nat
+  | .served (.forwarded f) => (200, f.endpoint.1, f.policy)
+  | .served (.terminated a) => (a.httpCode, [], 0)
+  | .served .notProxied => (1, [], 0)
+  | .served (.plainError c) => (c, [], 0)
+  | .served .badRequest => (400, [], 0)
+  | .served .proxyError => (502, [], 0)
+  | .served (.panic _) => (999, [], 0)
+  | .finished did => (if did then 2 else 3, [], 0)
+  | .health => (0, [], 0)
+
+example : (install [exCfgA, exCfgB]).clusters.length = 1 := by decide +kernel
+
+example : (run exEnv (Run.init (install [exCfgA, exCfgB])) exOps).2.map digest =
+    [(0, [], 0), (0, [], 0), (200, [102], 1), (429, [], 0), (2, [], 0), (200, [101], 1), (401, [], 0), (503, [], 0),
+     (0, [], 0), (200, [102], 1), (200, [102], 1)] := by decide +kernel
+
+/-- the forwarded request of the example carries the gateway's credential and the authenticated user, not the client's token -/
+example : (match (arrive exEnv (setHealth (setHealth (install [exCfgA]) 0 [101] true) 0 [102] true) (exReq [97] [116])).2 with
+    | .forwarded f => Model.Identity.values f.identity Model.Identity.hAuthorization == [Model.Identity.bearerPrefix ++ [103, 119]] &&
+                      Model.Identity.values f.identity Model.Identity.hImpUser == [[117]] && f.up.target == [47, 120]
+    | _ => false) = true := by decide +kernel
+
+end NonVacuous
+
 end KG.Props.C04.Gateway
